@@ -727,6 +727,39 @@ def zip_components(elem_terms):
     return base(z[2][0]), base(z[2][1])
 
 
+def goal_mask_info(ctx, planner, ts):
+    """ts is a per-milestone goal mask: `CONT.iter().map(|n| goal.is_satisfied(&n.<state>)).collect::<Vec<bool>>()` - element
+    i is the goal test on CONT[i] (one element per milestone, in order).  Returns the container terms, else None."""
+    from .core import IS_SATISFIED
+    if len(ts) != 1:
+        return None
+    n = next(iter(ts))
+    if not (n[0] == 'call' and n[1] == 'std::iter::Iterator::collect' and n[2] and len(n[2][0]) == 1):
+        return None
+    mp = next(iter(n[2][0]))
+    if not (mp[0] == 'call' and mp[1] == 'std::iter::Iterator::map' and len(mp[2]) == 2 and len(mp[2][0]) == 1 and len(mp[2][1]) == 1):
+        return None
+    it, cl = next(iter(mp[2][0])), next(iter(mp[2][1]))
+    if cl[0] != 'closure' or not (it[0] == 'call' and it[1] == 'core::slice::<impl [T]>::iter' and len(it[2]) == 1):
+        return None
+    cont = it[2][0]
+    cb = ctx.core.body(cl[1])
+    if cb is None or cb.arg_count != 2:
+        return None
+    cf = ctx.fn(cb)
+    rt = set()
+    for rb in cf.return_blocks():
+        rt |= cf.local_terms(0, (rb, cf.nstmts(rb)))
+    sfs = {c['state_field'] for c in planner['containers'].values()}
+    for r in rt:
+        if not (r[0] == 'call' and r[1] == IS_SATISFIED and len(r[2]) == 2):
+            return None
+        st = r[2][1]
+        if not (st and all(x[0] == 'field' and x[2] in sfs and x[1] and all(z[0] == 'param' and z[1] == 2 for z in x[1]) for x in st)):
+            return None
+    return cont if rt else None
+
+
 def argmin_info(ctx, ts):
     """ts (or the tuple it is a component of) is the result of
 
